@@ -56,7 +56,7 @@
 #define REQ_tempv_zero_on_entry (FA(t1, TVC, in_tempv[t1] == 0.0))
 /* --- the busy supernodes: every column of bcol..jcol-1 belongs to a supernode lying inside the range */
 #define REQ_etree (FA(e1, M, e1 < in_m ==> (e1 < in_etree[e1] && in_etree[e1] <= in_m)))
-#define REQ_busy_supernodes (FA(b1, M, BUSY(b1) ==> (0 <= in_supno[b1] && in_supno[b1] < in_m && in_bcol <= in_xsup[in_supno[b1]] && in_xsup[in_supno[b1]] <= b1 && b1 <= SLAST(b1) && SLAST(b1) < in_jcol)))
+#define REQ_busy_supernodes (FA(b1, M, BUSY(b1) ==> (0 <= in_supno[b1] && in_supno[b1] < in_m && in_bcol <= in_xsup[in_supno[b1]] && in_xsup[in_supno[b1]] <= b1 && 0 < in_xsup_end[in_supno[b1]] && in_xsup_end[in_supno[b1]] <= in_m && b1 <= SLAST(b1) && SLAST(b1) < in_jcol)))
 #define REQ_busy_contiguous (FA(b2, M, FA(b3, M, (BUSY(b2) && in_xsup[in_supno[b2]] <= b3 && b3 <= SLAST(b2)) ==> in_supno[b3] == in_supno[b2])))
 /* the climb lands on first columns: bcol starts a supernode, and so does the parent of a busy supernode's last column */
 #define REQ_climb_hits_first_columns ((in_bcol < in_jcol ==> ISFIRST(in_bcol)) && FA(b4, M, (BUSY(b4) && in_etree[SLAST(b4)] < in_jcol) ==> ISFIRST(in_etree[SLAST(b4)])))
